@@ -145,6 +145,14 @@ package crdt
 //@   ensures res != nil && fresh(res)
 //@   ensures [trust-all-written-as-star] cfg.TrustAll ==> len(res.TrustedPeers) == 1 && res.TrustedPeers[0] == "*"
 //@   ensures [list-written-whole] !cfg.TrustAll ==> len(res.TrustedPeers) == len(cfg.TrustedPeers)
+// every other setting: written from the field of the same name, left out exactly when that field has its default
+//@   ensures [cluster-name] res.ClusterName == cfg.ClusterName
+//@   ensures [max-batch-size] res.Batching.MaxBatchSize == cfg.Batching.MaxBatchSize
+//@   ensures [max-batch-age] res.Batching.MaxBatchAge == cfg.Batching.MaxBatchAge.String()
+//@   ensures [max-queue-size] res.Batching.MaxQueueSize == ite(cfg.Batching.MaxQueueSize != DefaultBatchingMaxQueueSize, cfg.Batching.MaxQueueSize, 0)
+//@   ensures [peerset-metric] res.PeersetMetric == ite(cfg.PeersetMetric != DefaultPeersetMetric, cfg.PeersetMetric, "")
+//@   ensures [datastore-namespace] res.DatastoreNamespace == ite(cfg.DatastoreNamespace != DefaultDatastoreNamespace, cfg.DatastoreNamespace, "")
+//@   ensures [rebroadcast-interval] res.RebroadcastInterval == ite(cfg.RebroadcastInterval != DefaultRebroadcastInterval, cfg.RebroadcastInterval.String(), "")
 //@   modifies nothing
 
 // ---- C18: "shutting a component down while it is in use": the shutdown flag is only read and written with the
